@@ -649,6 +649,13 @@ func (s *Server) blobUploadPut(repoStr, sessionID string) http.HandlerFunc {
 				s.log.Debug("digest does not match session", "err", err, "repo", repoStr, "sessionID", sessionID)
 				return
 			}
+			if errors.Is(err, types.ErrNotFound) {
+				// the session was completed by another request, cancelled or expired while this request was in progress
+				w.WriteHeader(http.StatusBadRequest)
+				_ = types.ErrRespJSON(w, types.ErrInfoBlobUploadUnknown("upload session not found"))
+				s.log.Debug("upload session ended during the request", "err", err, "repo", repoStr, "sessionID", sessionID)
+				return
+			}
 			w.WriteHeader(http.StatusInternalServerError)
 			s.log.Error("failed to close blob upload", "err", err, "repo", repoStr, "sessionID", sessionID)
 			return
